@@ -109,6 +109,11 @@ def records_for(gene, m, form):
         a = m.pos - 1
         if form == "plain":
             return [(a + 1, gene[a] + op[3:], gene[a])]
+        if form == "complex" and len(op) - 3 >= 2:
+            # a deletion-insertion record over the bases of the catalogued deletion
+            # (REF = anchor + deleted bases, ALT = anchor + another base): a shape the
+            # loader does not support, to be ignored
+            return [(a + 1, gene[a] + op[3:], gene[a] + ("C" if op[3] != "C" else "G"))]
         return None
     if op.startswith("ins"):
         if form == "plain":
@@ -148,14 +153,14 @@ def run_config(cfg):
     fm = z3.Int("form")
     g1, g2 = z3.Int("gt1"), z3.Int("gt2")
     si = z3.Int("sample")
-    base = [vi >= 0, vi < len(muts), fm >= 0, fm < 3, g1 >= -1, g1 <= 2, g2 >= -1, g2 <= 2,
+    base = [vi >= 0, vi < len(muts), fm >= 0, fm < 4, g1 >= -1, g1 <= 2, g2 >= -1, g2 <= 2,
             si >= 0, si < 2]
     tag = f"{cfg['gene']}/{cfg['genome']}"
-    forms = ["plain", "adjacent", "refmismatch"]
+    forms = ["plain", "adjacent", "refmismatch", "complex"]
 
     def run():
         m = muts[eng.choose(vi, range(len(muts)))]
-        form = forms[eng.choose(fm, range(3))]
+        form = forms[eng.choose(fm, range(4))]
         a = eng.choose(g1, range(-1, 3))
         b = eng.choose(g2, range(-1, 3))
         s = eng.choose(si, range(2))
@@ -223,12 +228,16 @@ def check_case(gene, m, form, recs, a, b, s):
     diploid = len(live) == 2
     carrier = 0 if form == "refmismatch" else 1  # which GT index denotes the variant
     k = sum(1 for x in live if x == carrier) if diploid else 0
+    if form == "complex":
+        k = 0  # records of any other shape are ignored
     kd = kind_of(m)
     got = cov.coverage(m)
     if got != 10 * k:
         probs.append(("support", f"vcf-support-{kd}" + ("-adjacent" if form == "adjacent"
                                                          else "-refmismatch"
-                                                         if form == "refmismatch" else ""),
+                                                         if form == "refmismatch" else
+                                                         "-complex" if form == "complex"
+                                                         else ""),
                       f"{m} written as {recs} with GT {gt}: support {got}, expected {10 * k}"))
     if smp.name != samples[s]:
         probs.append(("robust", "vcf-sample", f"sample name {smp.name}"))
